@@ -5,6 +5,128 @@ from .. import core, tlc
 from . import c03
 
 
+def L(i, f, m, span):
+    return dict(id=i, kind='line', file=f, line=m, span=span)
+
+
+def M(i, f, name, span):
+    return dict(id=i, kind='method', file=f, name=name, line=0, span=span)
+
+
+# shapes that are easy to get wrong: back-to-back deferring lines, a deferring last line under a method span,
+# recursion, generators, exceptions through several frames, the same function on two threads
+CURATED = [
+    ([L(1, 'a', 'f_first', 'line'), L(2, 'a', 'f_second', 'capture'), L(3, 'a', 'f_third', 'line')],
+     [[('a.f', [('line',)])]]),
+    ([L(1, 'a', 'f_first', 'line'), L(2, 'a', 'f_second', 'line'), L(3, 'a', 'f_third', 'line'), M(4, 'a', 'f', 'method')],
+     [[('a.f', [('line',), ('line',)])], [('a.f', [])]]),
+    ([L(1, 'a', 'f_plain', 'line'), L(2, 'a', 'f_plain', 'capture')], [[('a.f', [('line',), ('line',), ('line',)])]]),
+    ([M(1, 'a', 'f', 'method'), L(2, 'a', 'f_last', 'line'), L(3, 'a', 'f_last', 'capture')],
+     [[('a.f', [('call', 'a.g', [])])], [('a.f', [])], [('a.g', [])]]),
+    ([M(1, 'a', 'f', 'method'), L(2, 'a', 'f_call', 'line')],
+     [[('a.f', [('call', 'a.f', [('call', 'a.f', [])]), ('line',)])]]),
+    ([M(1, 'a', 'gen', 'method'), L(2, 'a', 'gen_yield', 'line'), L(3, 'a', 'gen_first', 'line')],
+     [[('a.f', [('gen', 2), ('gen', 1)])]]),
+    ([M(1, 'a', 'f', 'method'), M(2, 'b', 'g', 'method'), L(3, 'b', 'g_first', 'line')],
+     [[('a.f', [('try', 'b.g', [('call', 'a.g', [('raise',)])]), ('call', 'b.g', [('raise',)])])]]),
+    ([M(1, 'a', 'f', 'method'), L(2, 'a', 'f_second', 'line'), L(3, 'a', 'f_last', 'line')],
+     [[('a.f', [('line',)]), ('a.f', [('line',)])], [('a.f', [])], [('a.f', [])]]),
+]
+
+
+DIRECT_HOST = '''import sys
+
+H = None
+
+
+def work(tag):
+    H.trace_call(sys._getframe(), 'call', None)
+    a = 1
+    H.trace_call(sys._getframe(), 'line', None)  # TP:w1
+    b = 2
+    H.trace_call(sys._getframe(), 'line', None)  # TP:w2
+    c = 3
+    H.trace_call(sys._getframe(), 'line', None)  # TP:w3
+    H.trace_call(sys._getframe(), 'return', tag)
+    return tag
+'''
+
+
+def line_level_leg(c, wd, max_preemptions, max_runs):
+    """Two threads deliver their own events to the real handler (the host function calls trace_call itself), the
+    cooperative scheduler preempts at every line of trigger_handler.py / thread_local.py: whatever the interleaving,
+    every span is closed once, by the thread that opened it, and nothing stays pending."""
+    import threading
+    from .. import rig as R
+    from .. import sched as S
+    mod, path, marks = R.write_host(wd, DIRECT_HOST)
+    base = path.rsplit('/', 1)[-1]
+    shown = [0]
+
+    def make_run():
+        plugin = R.role_plugin('sp', {'span'})
+        rg = R.Rig(plugins=[plugin])
+        inf = {'fire_count': '-1', 'fire_period': '0', 'snapshot': 'no_collect'}
+        rg.install([dict(id='m', path=base, line=0, args=dict(inf, span='method', method_name='work')),
+                    dict(id='l1', path=base, line=marks['w1'], args=dict(inf, span='line')),
+                    dict(id='l2', path=base, line=marks['w2'], args=dict(inf, span='line'))])
+        mod.H = rg.handler
+        sch = S.Scheduler(line_files=('deep/processor/trigger_handler.py', 'deep/thread_local.py'))
+        idents = {}
+        results = {}
+
+        def body(tag):
+            idents[tag] = threading.get_ident()
+            try:
+                results[tag] = mod.work(tag)
+            except BaseException as ex:
+                results[tag] = repr(ex)
+        for tag in ('A', 'B'):
+            sch.spawn(tag, lambda tag=tag: body(tag))
+
+        def finish(sched, schedule):
+            problems = []
+            for tag in ('A', 'B'):
+                if results.get(tag) != tag:
+                    problems.append('host thread %s got %r' % (tag, results.get(tag)))
+            for sp in plugin.spans:
+                opener = [t for t, i in idents.items() if i == sp.open_thread]
+                if sp.closed != 1:
+                    problems.append('span %s opened by thread %s was closed %d times' % (sp.tp_id, opener, sp.closed))
+                elif sp.close_threads[0] != sp.open_thread:
+                    problems.append('span %s opened by thread %s was closed by another thread' % (sp.tp_id, opener))
+            if len(plugin.spans) != 6:
+                problems.append('%d spans opened, expected 6' % len(plugin.spans))
+            store = getattr(type(rg.handler._callbacks), '_ThreadLocal__store', {})
+            left = {t: len(store[i]) for t, i in idents.items() if i in store and store[i]}
+            for i in idents.values():
+                store.pop(i, None)
+            if left:
+                problems.append('pending callback entries left after the threads ended: %s' % left)
+            rg.close()
+            return problems
+        return sch, finish
+
+    n = 0
+    for schedule, problems in S.explore(make_run, max_preemptions=max_preemptions, max_runs=max_runs):
+        n += 1
+        c.traces_validated += 1
+        c.note_case(key=('line-schedule', str(schedule)), nontrivial=True)
+        if problems:
+            comp = []
+            for s_ in schedule:
+                if comp and comp[-1][0] == s_:
+                    comp[-1][1] += 1
+                else:
+                    comp.append([s_, 1])
+            p_ = c.save_replay({'direction': 'C2S', 'kind': 'line-schedule', 'schedule': comp, 'problems': problems})
+            c.violation('two threads, schedule %s: %s' % (comp, problems[:2]), p_)
+            break
+    import sys
+    sys.modules.pop(mod.__name__, None)
+    c.extra['line_schedules'] = n
+
+
 def run(c):
     quick = c.tier == 'quick'
     rng = random.Random(c.seed)
@@ -22,13 +144,14 @@ def run(c):
     c.mc_expect_violation('MC_Dispatch', c03.mc_cfg(top=True, idents=(1,), fns='MCFnsOne', tps='MCTpSetsSpans',
                                                     lines=(1,), ev=4, depth=1, invs=['ClosedWhenInvocationEnds']),
                           'deviation TopOnly', what='ClosedWhenInvocationEnds')
-    traces, meta = c03.run_scenarios(c, rng, wd, 60 if quick else 1500, 0.8, 'spans', 's')
+    traces, meta = c03.run_scenarios(c, rng, wd, 60 if quick else 1500, 0.8, 'spans', 's', curated=CURATED)
     c03.validate(c, traces, meta, lambda m: m['closes'] >= 2)
     c.extra['spans_closed'] = sum(m['closes'] for m in meta)
     # capture tracepoints (deferred snapshots): completed once, on their thread, with the opening invocation's result
     traces, meta = c03.run_scenarios(c, rng, wd, 60 if quick else 1500, 0.8, 'captures', 'k', capture=True)
     c03.validate(c, traces, meta, lambda m: m['closes'] >= 1)
     c.extra['captures_completed'] = sum(m['closes'] for m in meta)
+    line_level_leg(c, wd, 1 if quick else 2, 150 if quick else 6000)
 
 
 if __name__ == '__main__':
